@@ -496,8 +496,7 @@ def raft_seam(ctx):
         acts = [s["a"] for s in steps]
         return any(a in ("cpin", "cunpin") for a in acts) and "rm" not in acts and "add" not in acts
 
-    nf = 3 if ctx.quick() else 20
-    for w in (want_fault, want_crash):
+    for w, nf in ((want_fault, 3 if ctx.quick() else 20), (want_crash, 8 if ctx.quick() else 40)):
         extra = c17.scripts_from_graph(ctx, rng, gen_cfg, nf, 11, want=w, prop="C01")
         for e in extra:
             e["id"] = 2000 + len(scripts)
